@@ -688,4 +688,48 @@ def run (env : Env) : St → List Op → List String × St
 /-- the property's observable: the transcript -/
 def obs (env : Env) (s : St) (ops : List Op) : List String := (run env s ops).1
 
+/-! ## variable mocks (var.go, ue_var.go): Set / Apply / Cancel with the same debug line at the end -/
+
+/-- defaultVarMocker (var.go:20): the variable itself, `originValue` (valid iff `mocked`), and the logger's console state -/
+structure VarSt where
+  cur : Val
+  origin : Option Val := none
+  console : Nat
+  log : List String := []
+deriving Repr
+
+inductive VarOp
+| set (v : Val)      -- Set(value)                      var.go:85 / ue_var.go:56
+| apply (v : Val)    -- Apply(func() T { return v })    var.go:51: callbackValue, then the same doSet
+| reset              -- builder Reset → Cancel          var.go:70
+| read               -- the test reads the variable
+| dbg (d : DbgOp)
+deriving Repr
+
+/-- var.go:90 doSet, followed by `logger.Consolefc(DebugLevel, "mocker [%s] apply.", ..)` -/
+def varDoSet (s : VarSt) (v : Val) : VarSt :=
+  { cur := v,
+    origin := (match s.origin with | some o => some o | none => some s.cur),     -- only the value before the FIRST mock is saved
+    console := s.console,
+    log := if debugLevel ≤ s.console then s.log ++ ["mocker [var] apply."] else s.log }
+
+def varStep (s : VarSt) : VarOp → VarSt × String
+| .set v => (varDoSet s v, "ok")
+| .apply v => (varDoSet s v, "ok")
+| .reset => ({ s with cur := (match s.origin with | some o => o | none => s.cur), origin := none }, "ok")
+| .read => (s, s.cur.tok)
+| .dbg .on => ({ s with console := debugLevel }, "ok")
+| .dbg .off => ({ s with console := warningLevel }, "ok")
+| .dbg .tron => ({ s with console := debugLevel }, "ok")
+| .dbg .troff => ({ s with console := warningLevel }, "ok")
+
+def varRun : VarSt → List VarOp → List String × VarSt
+| s, [] => ([], s)
+| s, op :: ops =>
+  let r := varStep s op
+  let rest := varRun r.1 ops
+  (r.2 :: rest.1, rest.2)
+
+def varInit (cfg : Cfg) (v : Val) : VarSt := { cur := v, console := (initSt cfg).console }
+
 end Debug
